@@ -864,6 +864,17 @@ def check_flow(prog: Program, rep: Report):
                         cls_branch = True
         rep.check(ret_closure, "R10.4", w.qualname, w.loc, "non-class path returns the wrapping closure", detail="returns-closure")
         rep.check(cls_branch, "R10.4", w.qualname, w.loc, "class path rebinds obj.__init__ = wrap(obj.__init__) and returns obj", detail="class-branch")
+    # forwarding wrappers own no parameter a caller's keyword could land on: `**kwargs` belongs to the wrapped callable
+    import ast as _ast2
+
+    mod = prog.module(MOD)
+    nfw = 0
+    for n in _ast2.walk(mod.tree):
+        if isinstance(n, (_ast2.FunctionDef, _ast2.AsyncFunctionDef)) and n.args.kwarg is not None and n.args.vararg is not None:
+            nfw += 1
+            capturable = [a.arg for a in n.args.args + n.args.kwonlyargs]
+            rep.check(not capturable, "R10.4", f"{MOD}.{n.name}", f"{mod.relpath}:{n.lineno}", f"{n.name}(*args, **kwargs) has no keyword-capturable parameter of its own", f"{n.name} forwards **kwargs but owns the keyword-capturable parameter(s) {capturable}: a wrapped callable with a parameter (or **kw key) of that name cannot be called — bind(f)(self=1) raises \"multiple values for argument 'self'\", wrap(f)(__binding=…) replaces the binder", detail="own-params")
+    rep.count("forwarding_wrappers", nfw)
     # bind()
     b = prog.function(f"{MOD}.bind")
     okb = False
@@ -927,7 +938,7 @@ def run(prog: Program, rep: Report, tier: str):
     rep.rule("R10.1", "each binder's __call__ reduces to an effect summary (pos segments, keyword mode)", floor=16)
     rep.rule("R10.2", "_get_binding per-kind facts: own-annotation unmarshaller registered by index and name, own flag, varpos/varkwd, binding flow", floor=15)
     rep.rule("R10.3", "all 32 matrix rows route every accepted call shape to the parameter's own unmarshaller", floor=33)
-    rep.rule("R10.4", "bind/wrap/BoundRoutine dataflow and metadata", floor=11)
+    rep.rule("R10.4", "bind/wrap/BoundRoutine dataflow, metadata and parameter hygiene of the forwarding wrappers", floor=13)
     rep.rule("R10.5", "the signature bound is the signature of the callable that is called", floor=3)
     summaries = binder_summaries(prog, rep)
     f, facts = factory_facts(prog, rep)
